@@ -72,15 +72,26 @@ _DOUBLE_LAZY = {
         {"op": "return", "e": {"var": "x2"}}]],
     "params": {"kinds": {}},
 }
+# one yield that lists the same not-yet-started task twice (first and last): it starts at the place of its first occurrence
+_DUP_TASK = {
+    "roots": [[
+        {"op": "let", "h": "h1", "f": _t(1)["new"]},
+        {"op": "yield", "x": "x1", "s": {"list": [{"old": "h1"}, _t(2), _t(3), {"old": "h1"}]}},
+        {"op": "let", "h": "h2", "f": _t(4)["new"]},
+        {"op": "yield", "x": "x2", "s": {"tuple": [_t(5), {"old": "h2"}, {"tuple": [_t(6), _t(7)]}, {"list": [{"old": "h2"}]}]}},
+        {"op": "return", "e": {"var": "x2"}}]],
+    "params": {"kinds": {}},
+}
 _EXTRA = [
     (1, dict(name="shared-lazy", p_ctx_fault=0, p_nonasync=0, budget=16, max_depth=4, p_lazy=0.5, p_let=0.4, p_old=0.6, p_item=0.2)),
     (2, dict(name="nested-dict", p_ctx_fault=0, p_nonasync=0, budget=18, max_depth=4, p_dict=0.5, p_errfut=0.1, p_try=0.2)),
     (1, dict(name="reuse", p_ctx_fault=0, p_nonasync=0, budget=16, max_depth=4, p_again=0.6, p_let=0.35, p_old=0.5)),
+    (1, dict(name="dup", p_ctx_fault=0, p_nonasync=0, budget=18, max_depth=4, p_dup=0.6, p_item=0.25, p_const=0.1)),
 ]
 
 mach.install(globals(), "C03", ("EvStep", "EvDone"), ("C03:", "C10:compute-once"), PROFILES, n_quick=300, n_thorough=25000,
              nontrivial=_nontrivial, hang_clause="C03:termination", level="proof", extra_monitors=_extra,
-             corpus=[_NESTED_DICT, _DOUBLE_LAZY], extra_gen=mach.extra_profiles(_EXTRA, 60, 4000))
+             corpus=[_NESTED_DICT, _DOUBLE_LAZY, _DUP_TASK], extra_gen=mach.extra_profiles(_EXTRA, 75, 5000))
 
 _gen0 = gen_cases
 _cmp0 = compare
